@@ -643,6 +643,10 @@ func genCli(w *bufio.Writer, r *rand.Rand, n int) {
 		F := int64(0)
 		if r.Intn(5) != 0 {
 			F = 2*ln + r.Int63n(s-3*ln)
+			if r.Intn(6) == 0 {
+				// closer to warrior 1 than the random placement would ever put it: still the requested position
+				F = 1 + r.Int63n(2*ln-1)
+			}
 		}
 		preset := int64(0)
 		if r.Intn(6) == 0 {
@@ -655,6 +659,9 @@ func genCli(w *bufio.Writer, r *rand.Rand, n int) {
 			lens := []int64{0, 100, 300, 100, 20, 10, 5}
 			if F != 0 {
 				F = 2*lens[preset] + r.Int63n(cores[preset]-3*lens[preset])
+				if r.Intn(6) == 0 {
+					F = 1 + r.Int63n(2*lens[preset]-1)
+				}
 			}
 			if preset <= 3 {
 				use88 = map[int64]int64{1: 1, 2: 1, 3: 0}[preset]
@@ -665,6 +672,10 @@ func genCli(w *bufio.Writer, r *rand.Rand, n int) {
 		mode := int64(2)
 		if use88 == 1 {
 			mode = 0
+		}
+		if preset != 0 && r.Intn(3) == 0 {
+			// a preset fixes the rule set: the -8 flag given next to it changes nothing
+			use88 = 1 - use88
 		}
 		np := int64(1 + r.Intn(3)/1)
 		if np > 2 {
